@@ -50,7 +50,7 @@ package util
 
 //@ func SortedSet.Add
 //@   props C04 C05 C15 C17
-//@   trusted append followed by an in-place slices.Sort: permutation reasoning is outside the subset (bounded stand-in: DESIGN C15)
+//@   trustedpost append followed by an in-place slices.Sort: permutation reasoning is outside the subset
 //@   requires set != nil
 //@   assigns set.elems
 //@   assigns set.maxLen
